@@ -506,7 +506,10 @@ def run(ctx):
     sub = ['tg_reset'] + [(('tg_get %s %s' % (l.split(' ')[1], l.split(' ')[2])) if l != 'tg_invalidate' else l) for l in tl] + ['tg_keys']
     mk = keys_of(lib.run_model(sub)[-1])
     ops_coq = ';'.join(('TGet %s %d' % (l.split(' ')[1], num[l.split(' ')[2]])) if l != 'tg_invalidate' else 'TInvalidate' for l in tl)
-    term = ('tg_keys nat nat unit (tg_run nat nat unit Nat.eqb (fun k _ => Ok k) (fun a _ => a) [%s] (tg_init nat nat unit tt))' % ops_coq)
+    # a key whose token starts with '!' stands for tables that cannot be loaded (the driver's load fails on it)
+    failing = ';'.join(str(num[t]) for t in toks if t.startswith('!'))
+    term = ('tg_keys nat nat unit (tg_run nat nat unit Nat.eqb (fun k _ => if existsb (Nat.eqb k) [%s] then Err EOther else Ok k) '
+            '(fun a _ => a) [%s] (tg_init nat nat unit tt))' % (failing, ops_coq))
     n, err = lib.vm_cross_check('C13', 'From PBK Require Import Base Cache.', [(term, '[%s]' % ';'.join(str(num[k]) for k in mk))])
     ctx.extra['extraction_cross_check_vm_compute'] = n
     if err:
